@@ -69,6 +69,17 @@ def checkC08 (toks : List String) (res : String) : Option Verdict :=
         | .ok v => some (res == s!"rd({L.toString},{mode.toString}):{L.wrap v.2}")
         | _ => none
     some { model := showRes showNum m, spec := spec, branch := "asg/" ++ ops ++ "/" ++ mode.toString, nontrivial := spec.isSome }
+  | ["msi", mode, kind, v, r] => do
+    -- make_static_integer<RoundingTag>(constant<V>{}) (digits = bit length of |V|) or (int) (31 digits), divided by an int:
+    -- static_integer<D, RoundingTag> = overflow_integer<elastic_integer<D, rounding_integer<wide_integer<31,int>, RoundingTag>>, undefined>
+    let md ← parseRdMode mode; let v ← v.toInt?; let r ← r.toInt?
+    let d : Nat := if kind == "c" then Nat.log2 v.natAbs + 1 else 31
+    let ty := s!"ov(el({d},rd(wd(31,i32),{md.toString})),und)"
+    let q := roundDiv (modeOf md) v r
+    let m := s!"{ty}:{v}|{ty}:{q}"
+    -- the number made carries the requested rounding mode, and its quotient is the correctly rounded one
+    some { model := m, spec := some (res == m), branch := "msi/" ++ md.toString ++ "/" ++ kind,
+           nontrivial := v.tmod r != 0 }
   | ["cmp", ops, mode, lt, rt, l, r] => do
     -- comparisons behave exactly like the built-in ones (whichever operand is wrapped)
     let op ← parseCmpOp ops; let mode ← parseRdMode mode; let L ← parseIntTy lt; let R ← parseIntTy rt
